@@ -1,8 +1,14 @@
 package main
 
 import (
+	"archive/zip"
 	"bytes"
+	"crypto/sha256"
 	"encoding/json"
+	"io"
+	"regexp"
+	"sort"
+	"sync"
 	"fmt"
 	"image"
 	"image/color"
@@ -214,4 +220,86 @@ func pngNoise(w, h int, seed uint32) []byte {
 	var b bytes.Buffer
 	png.Encode(&b, im)
 	return b.Bytes()
+}
+
+// ---- fast per-part canonical hashes (for checks that compare very many packages)
+
+var (
+	canonCacheMu sync.Mutex
+	canonCache   = map[[32]byte]string{}
+	timeMaskRe   = regexp.MustCompile(`(<dcterms:(?:created|modified)[^>]*>)[^<]*(<)`)
+)
+
+// fastCanonParts returns part name -> hash of the canonical content of that part.  It is
+// CanonPackage with two shortcuts: a cache keyed by the raw bytes of a part, and, for
+// word/styles.xml as written by the library, sorting of the <w:style> chunks as text
+// instead of parsing the part (the order of styles follows Go map iteration).
+func fastCanonParts(data []byte) (map[string]string, string) {
+	zr, err := zip.NewReader(bytes.NewReader(data), int64(len(data)))
+	if err != nil {
+		return nil, err.Error()
+	}
+	out := map[string]string{}
+	for _, f := range zr.File {
+		rc, err := f.Open()
+		if err != nil {
+			return nil, err.Error()
+		}
+		raw, err := io.ReadAll(rc)
+		rc.Close()
+		if err != nil {
+			return nil, err.Error()
+		}
+		k := sha256.Sum256(append([]byte(f.Name+"\x00"), raw...))
+		canonCacheMu.Lock()
+		h, ok := canonCache[k]
+		canonCacheMu.Unlock()
+		if ok {
+			out[f.Name] = h
+			continue
+		}
+		h = ""
+		lname := strings.ToLower(f.Name)
+		isXML := strings.HasSuffix(lname, ".xml") || strings.HasSuffix(lname, ".rels")
+		if f.Name == "word/styles.xml" {
+			h = styleChunkHash(raw)
+		}
+		if h == "" && isXML {
+			src := raw
+			if strings.HasPrefix(f.Name, "docProps/") {
+				src = timeMaskRe.ReplaceAll(raw, []byte("${1}MASKED${2}"))
+			}
+			if root, probs := pkgmodel.ParseXML(src); root != nil && len(probs) == 0 {
+				h = rep.Hash(pkgmodel.Canon(root, pkgmodel.IDKeyed))
+			}
+		}
+		if h == "" {
+			h = "raw:" + rep.Hash(string(raw))
+		}
+		if len(raw) < 4096 || f.Name != "word/styles.xml" {
+			canonCacheMu.Lock()
+			if len(canonCache) < 200000 {
+				canonCache[k] = h
+			}
+			canonCacheMu.Unlock()
+		}
+		out[f.Name] = h
+	}
+	return out, ""
+}
+
+func styleChunkHash(raw []byte) string {
+	s := string(raw)
+	first := strings.Index(s, "<w:style ")
+	last := strings.LastIndex(s, "</w:style>")
+	if first < 0 || last < first {
+		return ""
+	}
+	body := s[first : last+len("</w:style>")]
+	chunks := strings.Split(body, "<w:style ")
+	for i := range chunks {
+		chunks[i] = strings.TrimSpace(chunks[i])
+	}
+	sort.Strings(chunks)
+	return "chunks:" + rep.Hash(append([]string{s[:first], s[last+len("</w:style>"):]}, chunks...)...)
 }
